@@ -11,8 +11,11 @@ Reading primitives (all on the remaining bytes of the file):
 Every pass starts from a reset decoder (`Seek(0)`, fresh reader, `header = {}`), therefore a pass is a
 function of the file bytes alone; `deliver` (C07Base) turns it into what `Acquire` hands out under `Limit`.
 
-`uripostPass` takes a flag: `true` = the repaired `readBlock` (data returned together with io.EOF is
-processed, fixes/C07-uripost-last-line.diff), `false` = the code before the repair.
+`uripostPass` takes a flag: `true` = `readBlock` as it is in /repo (data returned together with io.EOF is
+processed, commit df9a0d4), `false` = the code before that repair (kept to state what the repair changed).
+Announced sizes go through `readSized` (commit 8bca4e3): negative = error, larger than the rest of the file = short read.
+The provider's `headers` option is applied per delivered ammo (`withCfgRes`, commit 1aacb94: the file has priority).
+The provider counts what it delivers (`deliver`, commit 8ec6c57: the decoder itself runs with Limit = 0).
 -/
 import Pandora.Model.C07Base
 
@@ -97,7 +100,12 @@ def decodeURI (s : Bytes) : Except Err (Int × Bytes × Bytes) :=
     | some n => .ok (n, uri, join SP rest)
   | _ => .error .ammoformat
 
-/-- one pass of `uripostDecoder.Scan`/`readBlock` -/
+/-- `readBlock` calls `url.Parse(uri)` before `readSized`: an error of `readSized` is only reached when the
+target parses; outside the class where the model knows `url.Parse` the outcome is not predicted -/
+def sizeErr (uri : Bytes) (e : Err) : Err := if (parseURL uri).isSome then e else .urlclass
+
+/-- one pass of `uripostDecoder.Scan`/`readBlock` (`readSized`: a negative announced size is an error, a size
+larger than what is left in the file ends in (unexpected) EOF, however large it is) -/
 def uripostPass (fixed : Bool) (bs : Bytes) (h : Hdrs) : List Ammo × Stop :=
   match bs with
   | [] => ([], .eof)            -- ReadString: "", io.EOF
@@ -116,8 +124,8 @@ def uripostPass (fixed : Bool) (bs : Bytes) (h : Hdrs) : List Ammo × Stop :=
           match decodeURI (c :: d) with
           | .error e => ([], .err e)
           | .ok (n, uri, tag) =>
-            if n < 0 then ([], .err .panic)          -- make([]byte, n) with n < 0
-            else if p.2.1.length < n.toNat then ([], .err .shortread)   -- io.ReadFull fails
+            if n < 0 then ([], .err (sizeErr uri .negsize))          -- readSized: ErrNegativeSize
+            else if p.2.1.length < n.toNat then ([], .err (sizeErr uri .shortread))   -- readSized: io.ReadFull fails
             else
               let q := uripostPass fixed (p.2.1.drop n.toNat) h
               ({ method := postBytes, url := uri, body := p.2.1.take n.toNat, tag := tag, hdrs := h } :: q.1, q.2)
@@ -150,7 +158,7 @@ def rawPass (bs : Bytes) : List RawAmmo × Stop :=
         match rawDecodeHeader (c :: d) with
         | none => ([], .err .rawsize)
         | some (n, tag) =>
-          if n < 0 then ([], .err .panic)
+          if n < 0 then ([], .err .negsize)             -- readSized: ErrNegativeSize
           else if n = 0 then
             let q := rawPass p.2.1
             ({ frame := [], tag := [] } :: q.1, q.2)
@@ -208,6 +216,21 @@ def jsonDeliver (array : Bool) (ents : List Entity) (k : Nat) (preload : Bool) :
   else deliver p k preload
 
 /-! ### whole decoders -/
+
+/-- the `headers` option applied to every delivered ammo (each decoder clones its accumulator and fills in the
+configured headers the file did not define, entry by entry: a function of the entry's own header set) -/
+def withCfgRes (cfg : Hdrs) (r : List Ammo × Stop) : List Ammo × Stop := (r.1.map (Ammo.withCfg cfg), r.2)
+
+/-- `DecodeHTTPConfigHeaders`: the strings of the `headers` option, `[key: value]` each; an error fails `NewProvider` -/
+def decodeCfg : List Bytes → Except Err Hdrs
+  | [] => .ok []
+  | s :: r =>
+    match decodeHeader s with
+    | .error e => .error e
+    | .ok kv =>
+      match decodeCfg r with
+      | .error e => .error e
+      | .ok t => .ok (kv :: t)
 
 def uriDeliver (file : Bytes) (k : Nat) (preload : Bool) : List Ammo × Stop :=
   deliver (uriPass file []) k preload
